@@ -31,7 +31,8 @@ def plan(tier):
                 dict(n=3, blocks=125, flags="sats,runes,addresses", chain="regtest", update_every=25),
                 dict(n=3, blocks=18, flags="sats,runes", chain="testnet4", update_every=4),
                 dict(n=8, blocks=30, flags="sats,runes", chain="regtest", update_every=3, family="runes"),
-                dict(n=6, blocks=26, flags="sats,runes,addresses", chain="regtest", update_every=4, family="provenance")]
+                dict(n=6, blocks=26, flags="sats,runes,addresses", chain="regtest", update_every=4, family="provenance"),
+                dict(n=4, blocks=16, flags="sats,addresses", chain="regtest", update_every=2, family="dup")]
     return [dict(n=120, blocks=30, flags="sats,runes,addresses", chain="regtest", update_every=3),
             dict(n=12, blocks=140, flags="sats,runes,addresses", chain="regtest", update_every=20),
             dict(n=40, blocks=24, flags="sats,runes,addresses,transactions", chain="testnet4", update_every=5),
@@ -40,7 +41,9 @@ def plan(tier):
             dict(n=80, blocks=40, flags="sats,runes", chain="regtest", update_every=3, family="runes"),
             dict(n=30, blocks=40, flags="runes", chain="regtest", update_every=3, family="runes"),
             dict(n=60, blocks=40, flags="sats,runes,addresses", chain="regtest", update_every=4, family="provenance"),
-            dict(n=20, blocks=40, flags="runes", chain="regtest", update_every=4, family="provenance")]
+            dict(n=20, blocks=40, flags="runes", chain="regtest", update_every=4, family="provenance"),
+            dict(n=40, blocks=30, flags="sats,addresses", chain="regtest", update_every=2, family="dup"),
+            dict(n=10, blocks=30, flags="sats,runes,addresses,transactions", chain="regtest", update_every=3, family="dup")]
 
 
 def make_trace(seed, tier, events=True, plan_override=None, name="ledger"):
